@@ -1312,3 +1312,54 @@ def compare_enum_tables(af, mf):
             if got != (int(num) if num is not None else None):
                 return f"enum {t['name']}: emitted into-arm of {name} gives {got}, EnumSem.toNum gives {num}"
     return None
+
+
+def compare_addr_tables(af, mf):
+    """DDV.Gen.AddrSem (tabulated by the driver) against the address arithmetic read off the real
+    output: exact integers with base 1000, internal type with base 0 and 3, read_all report."""
+    T = af["internal_address_type"]
+    lo, hi = TYPE_RANGE[T]
+    fits = lambda v: lo <= v <= hi
+    blocks = {}
+    for b in af["blocks"]:
+        blocks.setdefault(b["name"], b)
+    for tb in mf["addr_tables"]:
+        b = blocks.get(tb["block"])
+        if b is None:
+            return f"block {tb['block']} missing in the implementation's output"
+        ms = {}
+        for m in b["methods"]:
+            ms.setdefault(m["name"], m)
+        for tm in tb["methods"]:
+            m = ms.get(tm["name"])
+            if m is None:
+                return f"method {tm['name']} missing"
+            lit = int(m["address"])
+            rep = m["repeat"]
+            for row in tm["rows"]:
+                i = int(row[0])
+                def exact(base):
+                    if rep is None:
+                        return base + lit if i == 0 else None
+                    if i >= int(rep["count"]):
+                        return None
+                    p = i * int(rep["stride_abs"])
+                    return base + lit + p if rep["op"] == "+" else base + lit - p
+                def typed(base):
+                    if not fits(lit) or not fits(base + lit):
+                        return None
+                    if rep is None:
+                        return base + lit if i == 0 else None
+                    if i >= int(rep["count"]):
+                        return None
+                    st = int(rep["stride_abs"])
+                    if not fits(i) or not fits(st) or not fits(i * st):
+                        return None
+                    v = base + lit + i * st if rep["op"] == "+" else base + lit - i * st
+                    return v if fits(v) else None
+                stride = 0 if rep is None else (int(rep["stride_abs"]) if rep["op"] == "+" else -int(rep["stride_abs"]))
+                want = [exact(1000), typed(0), typed(3), lit + i * stride]
+                got = [int(x) if x is not None else None for x in row[1:5]]
+                if want != got:
+                    return f"{tb['block']}.{tm['name']} index {i}: emitted arithmetic gives {want}, AddrSem gives {got}"
+    return None
